@@ -20,7 +20,7 @@ PROPS = {
     "C11": ("C11", {"rel:both_ok_same_val"}),
     "C23": ("C23", {"rel:cost_lt"}),
     "C25": ("C25", {"internal"}),
-    "C30": ("C30", {"rel:eq_outcome"}),
+    "C30": ("C30", {"rel:eq_outcome_c30"}),
     "C31": ("C31", {"guard:nil", "guard:counters", "guard:cost"}),
 }
 
@@ -154,3 +154,76 @@ def replay(rp):
     o = check(rp["property"], rp.get("tier", "quick"), rp.get("seed", 1))
     sig = rp.get("signature")
     return not [v for v in o.violations if sig is None or v.signature == sig]
+
+
+# ---------------------------------------------------------------------------
+# C05: three builds of the harness record the same seeded profiles; TLC compares them line by line
+
+def check_c05(tier, seed):
+    prop = "C05"
+    out = C.Outcome(prop)
+    work = os.path.join(C.WORK, "c05")
+    os.makedirs(work, exist_ok=True)
+    variants = ["default", "nofast", "diag"]
+    bins = {v: C.build_harness(v, ["run", "ops"]) for v in variants}
+    quick = tier == "quick"
+    jobs = [("run", "C05", 300 if quick else 4000, i) for i in range(3 if quick else 8)] + \
+           [("ops", "fast", 1500 if quick else 20000, i) for i in range(2 if quick else 6)] + \
+           [("ops", "random", 400 if quick else 5000, i) for i in range(1 if quick else 4)]
+    for which, profile, n, idx in jobs:
+        paths = {}
+        for v in variants:
+            p = os.path.join(work, "%s-%s-%d-%s-%d.ndjson" % (which, profile, idx, v, os.getpid()))
+            cmd = [bins[v][which], "record", "--profile", profile, "--seed", str(seed * 100 + idx), "--n", str(n), "--out", p]
+            if which == "run":
+                cmd += ["--repo", C.REPO, "--corpus", "1" if idx == 0 else "0"]
+            C.run(cmd, timeout=1800)
+            paths[v] = p
+        lens = {v: sum(1 for _ in open(paths[v])) for v in variants}
+        res = C.run_tlc("TraceSame", workers=1, deque=True, timeout=3000, name="TraceSame-%s-%d" % (profile, idx),
+                        env={"TRACE_A": paths["default"], "TRACE_B": paths["nofast"], "TRACE_C": paths["diag"]})
+        C.tlc_ok_or_raise(res, "TraceSame")
+        done = res.tagged("TRACE-DONE")
+        if not done:
+            raise C.ToolError("TraceSame did not finish")
+        out.add_tlc(res)
+        out.traces += sum(lens.values())
+        out.evaluations += lens["default"]
+        if len(set(lens.values())) != 1:
+            v = C.Violation(prop, "builds recorded traces of different length for %s/%s: %s" % (which, profile, lens), {"lens": lens})
+            v.signature = "C05:length:%s:%s" % (which, profile)
+            out.violations.append(v)
+        for m in res.tagged("MISMATCH"):
+            d = m["default"]
+            desc = "builds differ at line %d of %s/%s: default=%s nofast=%s diag=%s" % (
+                m["line"], which, profile, json.dumps(d)[:260], json.dumps(m["nofast"])[:260], json.dumps(m["diag"])[:260])
+            v = C.Violation(prop, desc, {"mismatch": m})
+            v.signature = "C05:%s:%s" % (which, C.sha256_str(json.dumps(d, sort_keys=True))[:12])
+            out.violations.append(v)
+        with open(paths["default"]) as f:
+            out.sample(json.loads(f.readline()), cap=4)
+        for p in paths.values():
+            os.remove(p)
+    # the default build's records are also validated against the specification (conformance = drift here)
+    res = record_and_validate("C05", tier, seed, shards=2 if quick else 8, per=200 if quick else 2500)
+    out.states += res["distinct"]
+    out.transitions += res["generated"]
+    out.traces += res["runs"]
+    for m in res["mismatches"]:
+        out.drift.append("%s case=%s %s" % (m["kind"], m["case"], json.dumps(m["detail"])[:300]))
+    out.nontrivial = out.evaluations
+    out.rule = ("the default, no-fastpath and counters+pre-eval (observe-only callback) builds of the harness record the same "
+                "seeded cases (fast-path-biased programs; direct add/sub/mul/>/sha256 calls on small-integer-biased arguments with "
+                "budgets around the cost; random operator calls); TraceSame.tla requires the three traces to be identical line by "
+                "line (inputs, result, cost, error message, counters). Distinct = lines of the default trace.")
+    out.assumptions = ["the generator is deterministic in the seed; it probes costs with the build under test, so a behavioural difference shows as a difference of the traces"]
+    return out
+
+
+_check_generic = check
+
+
+def check(prop, tier, seed):
+    if prop == "C05":
+        return check_c05(tier, seed)
+    return _check_generic(prop, tier, seed)
